@@ -719,6 +719,9 @@ def explore_c15(tier, seed):
                             three = rng.sample(secs_, 3)
                             ev["reb_sectors"] = dict(zip(three, rng.choice([(0.1, 0.2, 0.7), (0.7, 0.2, 0.1), (0.1, 0.3, 0.6), (0.6, 0.1, 0.3)])))
                         ev["shares_series"] = rng.random() < 0.5
+                        if rng.random() < 0.5 and ev.get("ctor") != "industries":
+                            ev["categorical"] = True          # impact Series with categorical index levels
+                            ev["ctor"] = "series"
             if i % 4 == 3:
                 # sector names that differ only by capitalisation, each with its own inventory duration / restoration time /
                 # capital ratio; one of the twins lists every dictionary in the reverse order
